@@ -310,6 +310,26 @@ Theorem C18_slice_written_after_construction :
          nth (length p) (run zero (fst (step zero p (FromArray CList src))) ws) ODead = x.
 Proof. exact slice_written_after_construction. Qed.
 
+(* Round 3: writes through a returned ELEMENT object (SetValue on an association taken from AsArray()'s result) and a
+   sorter instance working on the caller's own Go array address only the caller's array *)
+Theorem C18_element_writes_address_only_the_callers_array :
+  forall (s i : nat) (v : val) (rk : nat),
+         writes (AssocSet s i v) = Some s /\ writes (SortSlice s rk) = Some s.
+Proof. exact element_writes_address_only_the_callers_array. Qed.
+
+Theorem C18_element_write_leaves_the_collection_unchanged :
+  forall (zero : val) (p : pool) (s i : nat) (v : val) (p' : pool) (r : ret) (c : nat),
+         step zero p (AssocSet s i v) = (p', r) -> (c < length p)%nat -> c <> s -> nth c p' ODead = nth c p ODead.
+Proof. exact element_write_leaves_the_collection_unchanged. Qed.
+
+(* non-vacuity: a Catalog {a:1}, its AsArray() (slot 1), SetValue(9) on the association object of the array: the
+   array shows 9, the Catalog still 1; a sorter sorts the caller's array [3;1;2] in place *)
+Example C18_element_write_example :
+  run (wi 0) [] [NewSlice [VAssoc (VStr [97]%Z) (wi 1)]; FromArray CCatalog 0; AsArray 1 []; AssocSet 2 0 (wi 9)] =
+    [OSlice [VAssoc (VStr [97]%Z) (wi 1)]; OCat [(VStr [97]%Z, wi 1)]; OSlice [VAssoc (VStr [97]%Z) (wi 9)]] /\
+  step (wi 0) [OSlice [wi 3; wi 1; wi 2]] (SortSlice 0 0) = ([OSlice [wi 1; wi 2; wi 3]], RUnit).
+Proof. split; vm_compute; reflexivity. Qed.
+
 (* non-vacuity: the hypotheses of the scenario theorem on a concrete pool *)
 Example C18_slice_written_after_construction_example :
   get [OSlice [wi 1; wi 2; wi 3]] 0 = OSlice [wi 1; wi 2; wi 3] /\ (0 < length [OSlice [wi 1; wi 2; wi 3]])%nat /\
@@ -371,4 +391,6 @@ Print Assumptions C18_entry_get_iterator.
 Print Assumptions C18_entry_class_functions.
 Print Assumptions C18_caller_writes_address_only_the_callers_object.
 Print Assumptions C18_slice_written_after_construction.
+Print Assumptions C18_element_writes_address_only_the_callers_array.
+Print Assumptions C18_element_write_leaves_the_collection_unchanged.
 Print Assumptions C18_static_no_shared_storage.
